@@ -477,6 +477,24 @@ def oracle_case(ctx, alg, opts, keys, amps, kind, form="opt", wires=None, allow_
             ctx.fail(f"{name}:static-wiring:{tag}", f"gate appended on wires {got} (asked {places}); host state error {herr:.3e}",
                      pl(alg, opts, keys, amps))
             return
+    if worst <= TOL and width <= 8 and hasattr(gate, "_define"):
+        # second build of the definition on the SAME object (the cached definition dropped and requested again, as a
+        # copy / parameter re-assignment does): it must load the same dictionary (state kept on the object between
+        # builds, e.g. a running norm that is not reset, shows only here -- seeded change C06i)
+        try:
+            with time_limit(BUILD_LIMIT_S):
+                gate._define()
+                sv2 = np.asarray(Statevector(gate.definition).data)
+            err2 = float(np.abs(sv2 - exp).max()) if sv2.shape == exp.shape else float("inf")
+        except Exception as e:
+            err2 = float("inf")
+            ctx.count(f"rebuild-raises:{type(e).__name__}")
+        ctx.count(f"branch:rebuild:{name}")
+        if err2 > TOL:
+            ctx.fail(f"{name}:rebuild:{tag}", f"the second build of the definition on the same gate object deviates from the "
+                     f"dictionary by {err2:.3e} (the first build was exact: {worst:.3e})",
+                     pl(alg, opts, keys, amps, {"rebuild": True, "err_second_build": err2}))
+            return
     if worst <= TOL:
         ctx.ok(f"{name}:{tag}", nontrivial=m >= 2,
                sample={"variant": name, "n": n, "m": m, "kind": kind, "keys": keys[:6], "worst_abs_err": worst})
